@@ -16,5 +16,5 @@ for c in "$@"; do
   echo "$out" | grep -m2 -A2 "violation:" | cut -c1-400
 done
 cp -r $EVS/. /verif/evidence/; rm -rf $EVS
-git -C /repo worktree remove --force $WT
+git -C /repo worktree remove --force $WT; rm -rf /verif/build/alt-$(basename $WT)
 # rebuild the default binary against /repo
